@@ -244,7 +244,7 @@ AbsClonalRaw(r, k) ==
     IN Rat(ZSub(a, b), BgMul(BgNat(r.pn), BgNat(q.d)))
 (* the same with a floor at zero copies -- what a repaired code would compute (finding F-C01) *)
 AbsClonalClipped(r, k) == LET a == AbsClonalRaw(r, k) IN IF a.num.neg THEN Rat(ZZero, BgOne) ELSE a
-AbsClonal(r, k) == AbsClonalRaw(r, k)            \* <- the code as it is (switch here when repaired)
+AbsClonal(r, k) == AbsClonalClipped(r, k)        \* the repaired code floors at zero copies (fix: commit in /repo); AbsClonalRaw kept for DesignNonNeg history
 (* _log2_ratio_to_absolute_pure:  n = r * 2^v *)
 AbsPure(r, k) == LET q == RowAt(r, k).q IN Rat(ZMul(ZInt(ARefPure(r, k)), ZInt(q.n)), BgNat(q.d))
 
